@@ -28,7 +28,10 @@ const (
 )
 
 func init() {
-	opNames = append(opNames, "Collection.Pull.new", "Collection.Pull.old", "Value.Pull.event", "Collection.PullID.event")
+	registerOp(opCollPullNew, "Collection.Pull.new")
+	registerOp(opCollPullOld, "Collection.Pull.old")
+	registerOp(opValPull, "Value.Pull.event")
+	registerOp(opCollPullID, "Collection.PullID.event")
 }
 
 func populatedCount(m proto.Message) int {
